@@ -100,6 +100,8 @@ def gen_case(rng: random.Random, tier: str) -> dict:
                 ops.append({"op": "mixed_specs", "a": a, "b": b, "d": rng.randrange(len(frames)), "na": rng.choice([["ignore", "drop"], ["drop", "ignore"], ["drop", "drop"], ["raise", "drop"]])})
         elif kind in ("mm", "formula_mm", "mat_mm", "set_mm"):
             ops.append({"op": kind, "f": rng.randrange(len(formulas)), "d": rng.randrange(len(frames)), "output": out})
+            if rng.random() < 0.35:  # the caller does not ask which rows were dropped
+                ops[-1]["nodrop"] = True
         elif kind == "fit":
             ops.append({"op": "fit", "f": rng.randrange(len(formulas)), "d": rng.randrange(len(frames)), "output": out, "as": nspec})
             nspec += 1
@@ -224,18 +226,19 @@ def run_history(hist, mode):
     for i in order:
         op = hist["ops"][i]
         drop: set = set()
+        dkw = {} if op.get("nodrop") else {"drop_rows": drop}
         try:
             with quiet():
                 if op["op"] == "mm":
-                    res = model_matrix(hist["formulas"][op["f"]], pool.frame(op["d"]), output=op["output"], drop_rows=drop, context=pool.context())
+                    res = model_matrix(hist["formulas"][op["f"]], pool.frame(op["d"]), output=op["output"], context=pool.context(), **dkw)
                 elif op["op"] == "formula_mm":
-                    res = pool.formula(op["f"]).get_model_matrix(pool.frame(op["d"]), output=op["output"], drop_rows=drop, context=pool.context())
+                    res = pool.formula(op["f"]).get_model_matrix(pool.frame(op["d"]), output=op["output"], context=pool.context(), **dkw)
                 elif op["op"] == "mat_mm":
-                    res = pool.materializer(op["d"]).get_model_matrix(hist["formulas"][op["f"]], output=op["output"], drop_rows=drop)
+                    res = pool.materializer(op["d"]).get_model_matrix(hist["formulas"][op["f"]], output=op["output"], **dkw)
                 elif op["op"] == "set_mm":  # the terms handed over as a set (an accepted formula specification)
                     ftxt = hist["formulas"][op["f"]]
                     spec_ = set(ftxt.split(" + ")[1:]) if "~" not in ftxt and "|" not in ftxt else ftxt
-                    res = model_matrix(spec_, pool.frame(op["d"]), output=op["output"], drop_rows=drop, context=pool.context())
+                    res = model_matrix(spec_, pool.frame(op["d"]), output=op["output"], context=pool.context(), **dkw)
                 elif op["op"] == "mixed_specs":
                     from formulaic import ModelSpecs
 
